@@ -41,7 +41,7 @@ def variants(src, toks, rng, k):
         edits = []      # (line, col, replacement_len_removed, text) applied right-to-left per line
         extra_lines = {}  # line index -> list of lines to insert BEFORE it
         for _ in range(rng.randint(1, 6)):
-            kind = rng.choice(["eol", "line", "inline", "blank", "trail", "cont", "paren"])
+            kind = rng.choice(["eol", "line", "inline", "inline0", "blank", "trail", "cont", "paren"])
             if not code_lines:
                 break
             ln = rng.choice(code_lines)
@@ -82,6 +82,12 @@ def variants(src, toks, rng, k):
                     continue
                 a, b = rng.choice(gaps)
                 edits.append((ln, b["b"], 0, rng.choice(["#[ c ]# ", "#[c]# ", "#[ a #[ nested ]# b ]# "])))
+            elif kind == "inline0":
+                # an inline comment before the first token of the line (after the indentation)
+                indent = len(text) - len(text.lstrip(" "))
+                if ts[0]["b"] != indent or ts[0]["k"] in ("StrInterpMid", "StrInterpRight"):
+                    continue
+                edits.append((ln, indent, 0, rng.choice(["#[ c ]# ", "#[c]# "])))
             elif kind == "cont":
                 cands = [(a, b) for a, b in zip(ts, ts[1:]) if a["k"] in BINOPS and b["b"] - a["e"] >= 1
                          and text[a["e"]:b["b"]].strip(" ") == "" and a is not ts[0]]
